@@ -29,6 +29,11 @@ def gen_case(rng):
     if k < 0.3:
         l = rng.randint(0, F - 1); r = rng.randint(l + 1, F)
         c["op"] = ["slice", l, r]
+        if rng.random() < 0.25:
+            # "all slice bounds": Python-style negative bounds name the same columns counted from the end
+            lr = l - F if rng.random() < 0.6 else l
+            rr = r - F if (r < F and rng.random() < 0.6) else r
+            c["raw_bounds"] = [lr, rr]
     elif k < 0.7:
         D = rng.choice([0.0, 0.5, -0.5, 1.0, -1.0, 1.5, -1.5, 2.0, 0.25, -0.75, 3.0, -3.0, 0.125]) * rng.choice([1, 1, 2])
         d = D * unit
@@ -116,7 +121,7 @@ def run(ctx):
         ctx.model_error(str(ex)[-2000:]); vals = [None] * len(cases)
     for c, r, mv in zip(cases, impl, vals):
         op = c["op"]
-        ctx.tally("op", op[0]); ctx.tally("parent", c["from_file"] or "synthetic"); ctx.tally("orientation", "asc" if c["ascending"] else "desc"); ctx.tally("time_axis_origin", c.get("ts_origin", 0))
+        ctx.tally("op", op[0]); ctx.tally("parent", c["from_file"] or "synthetic"); ctx.tally("orientation", "asc" if c["ascending"] else "desc"); ctx.tally("time_axis_origin", c.get("ts_origin", 0)); ctx.tally("slice_bounds_negative", bool(c.get("raw_bounds")) if op[0] == "slice" else "n/a")
         T, F, df, dt, fmin = c["T"], c["F"], c["df"], c["dt"], c["fmin"]
         data = c["data"]
 
